@@ -717,6 +717,9 @@ func (fi *FuncInfo) errorHandled(call *ast.CallExpr, errIdx, nres int) (bool, st
 						}
 						for _, u2 := range fi.usesOf(v) {
 							if contains(failing, u2) {
+								if arm := fi.armDroppingError(failing, v); arm != nil {
+									return false, "tested, but one arm of a test of the error's dynamic type neither reports nor returns it"
+								}
 								return true, "tested; the failing edge uses the error"
 							}
 						}
@@ -750,4 +753,66 @@ func (fi *FuncInfo) errorHandled(call *ast.CallExpr, errIdx, nres int) (bool, st
 		return true, "tested"
 	}
 	return false, "unrecognised use"
+}
+
+// armDroppingError: inside the failing edge, an if/else that inspects the error (a type assertion in its init or
+// condition) must consume it — the error itself or what the assertion yielded — on both arms.
+func (fi *FuncInfo) armDroppingError(failing ast.Node, v *types.Var) ast.Node {
+	var bad ast.Node
+	ast.Inspect(failing, func(nd ast.Node) bool {
+		is, ok := nd.(*ast.IfStmt)
+		if !ok || is.Else == nil || bad != nil {
+			return true
+		}
+		mentions := func(n ast.Node, vs map[*types.Var]bool) bool {
+			hit := false
+			if n == nil {
+				return false
+			}
+			ast.Inspect(n, func(m ast.Node) bool {
+				if id, ok := m.(*ast.Ident); ok {
+					if x, ok := fi.Info.ObjectOf(id).(*types.Var); ok && vs[x] {
+						hit = true
+					}
+				}
+				return true
+			})
+			return hit
+		}
+		own := map[*types.Var]bool{v: true}
+		inspects := false
+		if is.Init != nil && mentions(is.Init, own) {
+			if as, ok := is.Init.(*ast.AssignStmt); ok && len(as.Rhs) == 1 {
+				if _, isTA := ast.Unparen(as.Rhs[0]).(*ast.TypeAssertExpr); isTA {
+					inspects = true
+					for _, l := range as.Lhs {
+						if x := fi.varOf(l); x != nil && isErrorLike(x.Type()) {
+							own[x] = true
+						}
+					}
+				}
+			}
+		}
+		if !inspects {
+			return true
+		}
+		for _, arm := range []ast.Node{is.Body, is.Else} {
+			if !mentions(arm, own) {
+				bad = arm
+			}
+		}
+		return true
+	})
+	return bad
+}
+
+func isErrorLike(t types.Type) bool {
+	if isErrorType(t) {
+		return true
+	}
+	return types.Implements(t, errorIface()) || types.Implements(types.NewPointer(t), errorIface())
+}
+
+func errorIface() *types.Interface {
+	return types.Universe.Lookup("error").Type().Underlying().(*types.Interface)
 }
